@@ -1030,6 +1030,30 @@ impl CodeGenerator {
         }
     }
 
+    /// The recursive body for aggregation-in-loop: the input of the top-level min/max
+    /// Aggregate, projected onto the head columns (group-by columns, then the aggregated
+    /// column). The loop variable must carry tuples of the *head's* shape, like the base
+    /// case it is concatenated with, not the wider tuples of the rule body.
+    fn project_top_aggregate(ir: &IRNode) -> IRNode {
+        match ir {
+            IRNode::Aggregate {
+                group_by,
+                aggregations,
+                output_schema,
+                ..
+            } if aggregations.len() == 1 => {
+                let mut projection = group_by.clone();
+                projection.push(aggregations[0].1);
+                IRNode::Map {
+                    input: Box::new(Self::strip_top_aggregate(ir).clone()),
+                    projection,
+                    output_schema: output_schema.clone(),
+                }
+            }
+            _ => ir.clone(),
+        }
+    }
+
     fn execute_recursive_dd_iterative_typed<R: DiffType>(
         &self,
         base_inputs: &[IRNode],
@@ -1064,7 +1088,7 @@ impl CodeGenerator {
         let effective_recursive_inputs: Vec<IRNode> = if agg_in_loop.is_some() {
             recursive_inputs
                 .iter()
-                .map(|ri| Self::strip_top_aggregate(ri).clone())
+                .map(Self::project_top_aggregate)
                 .collect()
         } else {
             recursive_inputs.to_vec()
@@ -1152,11 +1176,14 @@ impl CodeGenerator {
                         let combined = base_in_scope.concat(recursive_result);
 
                         // Apply deduplication strategy based on aggregation mode
-                        let next = if let Some((ref group_by, agg_col, is_min)) = agg_in_loop {
+                        let next = if let Some((ref body_group_by, _body_agg_col, is_min)) = agg_in_loop {
                             // Min/Max aggregation-in-loop: instead of distinct(), apply
                             // reduce() with min/max logic. This prunes non-optimal paths
                             // at each iteration, reducing intermediate data volume.
-                            let group_by = group_by.clone();
+                            // Base and (projected) recursive tuples have the head's shape:
+                            // the group-by columns first, then the aggregated column.
+                            let group_by: Vec<usize> = (0..body_group_by.len()).collect();
+                            let agg_col = body_group_by.len();
                             combined
                                 .map(move |tuple| {
                                     let key: Vec<Value> = group_by
